@@ -265,8 +265,14 @@ def _touch(it, nit, acc):
 
 
 def _innermost(e):
-    tb = traceback.extract_tb(e.__traceback__)
-    chain = [f.name for f in tb if "/pygradflow/" in f.filename.replace("\\", "/")]
+    """(qualified name of the innermost pygradflow function, last few of the chain)."""
+    chain = []
+    tb = e.__traceback__
+    while tb is not None:
+        code = tb.tb_frame.f_code
+        if "/pygradflow/" in code.co_filename.replace("\\", "/"):
+            chain.append(getattr(code, "co_qualname", code.co_name))
+        tb = tb.tb_next
     return (chain[-1] if chain else "?"), tuple(chain[-6:])
 
 
